@@ -73,6 +73,10 @@ pub struct Query {
     /// dropped after k scheduler turns (a client that disconnects / times out mid-request)
     #[serde(default)]
     pub abandoned_after: Option<u8>,
+    /// row statements only: `[ORDER BY timestamp] LIMIT n` (bit 7 = with ORDER BY). Any n matching
+    /// rows are a correct answer: the oracle is a validity predicate, not one expected answer
+    #[serde(default)]
+    pub limit: Option<u8>,
 }
 
 #[derive(Clone, Debug, Serialize, Deserialize)]
@@ -372,7 +376,21 @@ pub fn exec(case: &Case) -> Outcome {
             if let Some(k) = known_class(&flags, d, fresh) {
                 out.excluded_known = Some(k.to_string());
             }
-            let want = reference(&sql, &env.all, env.schema.clone()).await;
+            // LIMIT: the reference answers the statement without it; the answer must be min(n, all)
+            // of those rows
+            let limit_n = match (&q.proj, q.limit) {
+                (Proj::Star | Proj::Cols, Some(l)) => Some((1 + (l & 0x03) as usize, l & 0x80 != 0)),
+                _ => None,
+            };
+            let unlimited_sql = sql.clone();
+            let sql = match limit_n {
+                Some((n, ordered)) => {
+                    out.class("q:limit");
+                    format!("{}{} LIMIT {}", sql, if ordered { " ORDER BY timestamp" } else { "" }, n)
+                }
+                None => sql,
+            };
+            let want = reference(&unlimited_sql, &env.all, env.schema.clone()).await;
             if let Some(k) = q.abandoned_after {
                 // the node's state after an abandoned request is one more "temperature" the answer must not depend on
                 if PollBudget::new(node.query(&sql), 1 + k as u32).await.is_none() {
@@ -436,6 +454,24 @@ pub fn exec(case: &Case) -> Outcome {
                     (Ok(w), Ok(g)) => {
                         let wr = result_rows(w);
                         let gr = result_rows(&g);
+                        if let Some((n, _)) = limit_n {
+                            // validity: min(n, |all matching|) rows, each a matching row, none twice
+                            let mut pool = wr.clone();
+                            let mut bad = gr.len() != n.min(wr.len());
+                            for r in &gr {
+                                match pool.iter().position(|x| x == r) {
+                                    Some(i) => {
+                                        pool.swap_remove(i);
+                                    }
+                                    None => bad = true,
+                                }
+                            }
+                            if bad {
+                                out.set_fail(sigbase("limit-answer-invalid"), format!("query {} ({} pass): {}\n {} rows match; the answer has {} rows (LIMIT {}), not all of them matching rows", qi, ["cold", "warm", "streaming"][pass], sql, wr.len(), gr.len(), n));
+                                return out;
+                            }
+                            continue;
+                        }
                         if wr != gr {
                             let missing = wr.iter().filter(|r| !gr.contains(r)).count();
                             let what = if gr.len() < wr.len() || missing > 0 { "rows-missing" } else { "rows-surplus" };
@@ -712,7 +748,7 @@ fn proj() -> impl Strategy<Value = Proj> {
 }
 
 fn strategy(t: Tier) -> BoxedStrategy<Case> {
-    ((dataset(t.pick(40usize, 60usize)), prop::bool::weighted(0.25), prop::bool::weighted(0.15)).prop_map(|(mut d, h, pre)| { d.hetero = h as u8; d.pre_epoch = pre; d }), prop::collection::vec((win(), rest(), proj(), prop::option::weighted(0.15, 0u8..40)).prop_map(|(win, rest, proj, abandoned_after)| Query { win, rest, proj, abandoned_after }), 1..t.pick(6usize, 10usize)), any::<bool>(), prop::bool::weighted(0.3), prop::bool::weighted(0.3), prop::bool::weighted(0.4))
+    ((dataset(t.pick(40usize, 60usize)), prop::bool::weighted(0.25), prop::bool::weighted(0.15)).prop_map(|(mut d, h, pre)| { d.hetero = h as u8; d.pre_epoch = pre; d }), prop::collection::vec((win(), rest(), proj(), prop::option::weighted(0.15, 0u8..40), prop::option::weighted(0.35, any::<u8>())).prop_map(|(win, rest, proj, abandoned_after, limit)| Query { win, rest, proj, abandoned_after, limit }), 1..t.pick(6usize, 10usize)), any::<bool>(), prop::bool::weighted(0.3), prop::bool::weighted(0.3), prop::bool::weighted(0.4))
         .prop_map(|(data, queries, fresh_each, adaptive, compact, with_stats)| Case { data, queries, fresh_each, adaptive, compact, with_stats })
         .boxed()
 }
